@@ -2,7 +2,7 @@ import SaModel.Lemmas.C12Basic
 import SaModel.Spec.WF
 /-
 C12 helpers, part 6: `sliceable` is implied by Arrow validity as spelled out for C03 (`Spec.wf`): every array the
-crate's builders produce (C03 `C03_wf`) may be sliced.
+crate's builders produce (C03 `C03_wfS`) may be sliced.
 -/
 namespace SaModel.Lemmas.C12
 open SaModel SaModel.Read SaModel.Spec
@@ -73,8 +73,8 @@ theorem wfFields_sliceable : ∀ (cols : ArrFields) (fs : Fields) (len : Nat), w
       exact ⟨⟨by omega, wf_sliceable a _ _ hw⟩, wfFields_sliceable r rest len hr⟩
 end
 
-/-- every array that is structurally valid for its field (C03 `Spec.WF`) satisfies `sliceable` -/
-theorem WF_sliceable (f : Field) (a : Arr) (h : WF f a = true) : sliceable a = true :=
+/-- every array that is structurally valid for its field (C03 `Spec.WFS`) satisfies `sliceable` -/
+theorem WF_sliceable (f : Field) (a : Arr) (h : WFS f a = true) : sliceable a = true :=
   wf_sliceable a f.dataType f.nullable h
 
 end SaModel.Lemmas.C12
